@@ -420,8 +420,13 @@ def do_while(ex, node: ast.While, st: State):
         v0 = eval_clause_value(ex, info, dec, sh, {})
         ex.ctx.oblige(sh, v0.term >= 0, f"variant-bounded[{k_ord}]", where)
     if ex.feasible(sh):
+        from .verify import apply_hint
+        apply_hint(ex, info, f"hint_body_{k_ord}", sh)
         for kind, s2, payload in ex.exec_block(node.body, sh):
             if kind in ("fall", "continue"):
+                for sfx in sorted(info.clauses(f"hint_inv_{k_ord}")):
+                    if sfx == "" or sfx[0].isalpha():
+                        apply_hint(ex, info, f"hint_inv_{k_ord}{sfx}", s2)
                 ex.ctx.oblige(s2, eval_clause(ex, info, inv, s2, {}), f"inv-preserved[{k_ord}]", where)
                 if dec is not None:
                     v1 = eval_clause_value(ex, info, dec, s2, {})
